@@ -306,6 +306,68 @@ void dimk(const int W, const int H, const int *in, int *out) {
     }
   }
 }''', [('int', 'N', 0, A8)], [('int', 'in', A8, 'in'), ('int', 'out', A8, 'out')], assumes=['N % 2 == 0'], feats='@simd_length'))
+    P.append(K('outer3', '''
+@kernel void outer3(const int A, const int B, const int *in, int *out) {
+  for (int z = 0; z < 2; ++z; @outer(2)) {
+    for (int y = 0; y < B; ++y; @outer(1)) {
+      for (int x = 0; x < A; ++x; @outer(0)) {
+        for (int i = 0; i < 1; ++i; @inner(0)) {
+          out[z * 4 + y * 2 + x] = in[z * 4 + y * 2 + x] + 100 * z + 10 * y + x;
+        }
+      }
+    }
+  }
+}''', [('int', 'A', 0, 2), ('int', 'B', 0, 2)], [('int', 'in', A8, 'in'), ('int', 'out', A8, 'out')], feats='three @outer levels with explicit indices', cap=3))
+    P.append(K('inner3', '''
+@kernel void inner3(const int A, const int *in, int *out) {
+  for (int o = 0; o < 1; ++o; @outer) {
+    for (int z = 0; z < 2; ++z; @inner(2)) {
+      for (int y = 1; y >= 0; --y; @inner(1)) {
+        for (int x = 0; x < A; ++x; @inner(0)) {
+          out[z * 4 + y * 2 + x] = in[z * 4 + y * 2 + x] - (z * 4 + y * 2 + x);
+        }
+      }
+    }
+  }
+}''', [('int', 'A', 0, 2)], [('int', 'in', A8, 'in'), ('int', 'out', A8, 'out')], feats='three @inner levels with explicit indices, one descending', cap=3))
+    P.append(K('sharedloop', '''
+@kernel void sharedloop(const int N, const int *in, int *out) {
+  for (int b = 0; b < N; ++b; @outer) {
+    @shared int s[2];
+    for (int r = 0; r < 2; ++r) {
+      for (int t = 0; t < 2; ++t; @inner) {
+        s[t] = in[b * 4 + r * 2 + t];
+      }
+      @barrier;
+      for (int t = 0; t < 2; ++t; @inner) {
+        out[b * 4 + r * 2 + t] = s[1 - t] + r;
+      }
+      @barrier;
+    }
+  }
+}''', [('int', 'N', 0, 2)], [('int', 'in', A8, 'in'), ('int', 'out', A8, 'out')], feats='@shared reused across iterations of a sequential loop with @barrier inside the loop'))
+    P.append(K('exclstride', '''
+@kernel void exclstride(const int N, const int *in, int *out) {
+  for (int b = N - 1; b >= 0; --b; @outer) {
+    @exclusive int e;
+    @exclusive int k;
+    for (int t = 6; t >= 0; t -= 2; @inner) {
+      k = b * 4 + t / 2;
+      e = in[k] + t;
+    }
+    for (int t = 6; t >= 0; t -= 2; @inner) {
+      out[k] = e - t;
+    }
+  }
+}''', [('int', 'N', 0, 2)], [('int', 'in', A8, 'in'), ('int', 'out', A8, 'out')], feats='@exclusive values carried between strided descending @inner loops',
+             ref='''
+void exclstride(const int N, const int *in, int *out) {
+  for (int b = N - 1; b >= 0; --b) {
+    int e[4]; int k[4]; int n = 0;
+    n = 0; for (int t = 6; t >= 0; t -= 2) { k[n] = b * 4 + t / 2; e[n] = in[k[n]] + t; n++; }
+    n = 0; for (int t = 6; t >= 0; t -= 2) { out[k[n]] = e[n] - t; n++; }
+  }
+}'''))
     return P
 
 
